@@ -386,6 +386,10 @@ fn rule_of(e: &CheckError) -> (Rule, tree_sitter_graph::Location) {
 const VALID_NEIGHBOURS: &[(&str, &str)] = &[
     ("capture_used_only_in_nested_block", "(identifier) @c { if #true { for x in [1] { print @c } } }"),
     ("capture_used_only_as_scope", "(identifier) @c { node @c.n }"),
+    ("capture_used_only_as_scope_of_set_target", "(identifier) @x { var @x.v = 1 }\n(identifier) @y { set @y.v = 2 }"),
+    ("capture_used_only_as_scope_of_set_target_in_loop", "(identifier) @x { var @x.v = 1 }\n(identifier) @y { for i in [1, 2] { set @y.v = i } }"),
+    ("capture_used_only_as_scope_of_definition", "(identifier) @x { let @x.v = 1 }"),
+    ("capture_used_only_in_edge_attribute_sink", "(identifier) @x { node @x.n }\n(identifier) @y { node m edge m -> @y.n attr (m -> @y.n) k = 1 }"),
     ("capture_used_only_in_comprehension", "(argument_list (_)* @xs) { print [ (source-text x) for x in @xs ] }"),
     ("underscore_capture_unused", "(identifier) @_c { node n }"),
     ("set_var_from_nested_block", "(module) { var v = 1 if #true { for x in [1] { set v = x } } }"),
